@@ -2,3 +2,5 @@ import Lungo.Model.Value
 import Lungo.Model.Num
 import Lungo.Model.Compare
 import Lungo.Model.Json
+import Lungo.Model.GridFS
+import Lungo.Spec.Reader
